@@ -420,6 +420,14 @@ struct BodyWriter {
       if (V->isStaticLocal()) v["static"] = true;
       if (V->isConstexpr()) v["constexpr"] = true;
       if (V->getTLSKind() != VarDecl::TLS_None) v["tls"] = true;
+      // a reference bound to a temporary whose lifetime it extends (`const auto& x = f();` with f returning by value):
+      // the object lives in this function's frame
+      if (V->getType()->isReferenceType() and V->getInit()) {
+         const Expr* I = V->getInit();
+         if (auto EWC = dyn_cast<ExprWithCleanups>(I)) I = EWC->getSubExpr();
+         if (auto MTE = dyn_cast<MaterializeTemporaryExpr>(I->IgnoreParens()))
+            if (MTE->getExtendingDecl() == V) v["extends_temporary"] = true;
+      }
       // does the declared type follow the initialiser (auto, decltype, a substituted template parameter) or is it fixed
       // by the text of the declaration (`const int x = f()` inside a template converts whatever f returns)?
       if (auto TSI = V->getTypeSourceInfo()) {
